@@ -5,6 +5,7 @@ From Schwifty Require Import Spec.NationalPublished Spec.Bundesbank.
 From Schwifty Require Import Model.Registry Model.Lookup Spec.Iso13616.
 From Schwifty Require Import Proofs.NationalFacts Proofs.NationalDigits Proofs.NationalCountries Proofs.RandomFacts Proofs.GermanFacts.
 From Schwifty Require Import Gen.Env Gen.IbanData Gen.IbanCfg Gen.ChecksumCfg Gen.GermanyTbl Gen.Banks.
+From Schwifty Require Import Model.Iban Proofs.CleanFacts Proofs.IbanFacts Proofs.DecompFacts Proofs.GenObligations.
 From Coq Require Import String.
 Import ListNotations.
 Open Scope list_scope.
@@ -423,8 +424,21 @@ Definition de_row_ok : bool :=
 Lemma C07_de_obl : de_row_ok = true.
 Proof. vm_cast_no_check (eq_refl true). Qed.
 
-Definition idx_banks := bank_code_entries the_banks.
 Definition de := tx "DE".
+
+Lemma returns_true : forall T find_algo bank_index cc b r,
+  validate_national T find_algo bank_index cc b = Ok r -> r = true.
+Proof.
+  intros T find_algo bank_index cc b r H. unfold validate_national in H.
+  destruct (bban_bank T bank_index cc b) as [bank| |]; cbn [bind] in H; try discriminate.
+  destruct (find_algo cc _) as [al|]; [|inversion H; reflexivity].
+  destruct (get_spec T cc); cbn [bind] in H; try discriminate.
+  destruct (al_validate al _ _) as [[]| |]; cbn [bind] in H; try discriminate. inversion H; reflexivity.
+Qed.
+
+Lemma national_result_none (o : outcome bool) : verdict o = None ->
+  (do ok <- o; if ok then Ok true else Err EInvalidBBANChecksum) <> Ok true.
+Proof. destruct o as [[|]|[]|x]; cbn [verdict bind]; intro H; try discriminate; discriminate. Qed.
 
 Lemma national_result (o : outcome bool) v : verdict o = Some v ->
   (do ok <- o; if ok then Ok true else Err EInvalidBBANChecksum) = (if v then Ok true else Err EInvalidBBANChecksum).
@@ -437,7 +451,7 @@ Proof. induction p as [|c p IH]; [reflexivity|]. cbn [app startswith]. rewrite N
 (* for a structurally conforming German BBAN whose bank is listed with a method for which the equivalence above holds:
    national validation accepts exactly when the Bundesbank method accepts the account number, and otherwise raises
    InvalidBBANChecksum *)
-Theorem C07_national : forall code r b en,
+Theorem C07_national : forall (idx_banks : text -> text -> list entry) code r b en,
   method_statement code ->
   find_row the_table de = Some r -> conforms_row r b = true ->
   bban_bank the_table idx_banks de b = Ok (Some en) -> e_algo en = Some (s2t code) ->
@@ -446,10 +460,10 @@ Theorem C07_national : forall code r b en,
   match bb_accept code (digs account) with
   | Some true => validate_national the_table the_algos idx_banks de b = Ok true
   | Some false => validate_national the_table the_algos idx_banks de b = Err EInvalidBBANChecksum
-  | None => True
+  | None => validate_national the_table the_algos idx_banks de b <> Ok true
   end.
 Proof.
-  intros code r b en (g & cls & acc & Hmc & Hreg0 & Hal & Hspec) Er Hconf Hbank Halgo account.
+  intros idx_banks code r b en (g & cls & acc & Hmc & Hreg0 & Hal & Hspec) Er Hconf Hbank Halgo account.
   pose proof C07_de_obl as O. unfold de_row_ok in O. fold de in O. rewrite Er in O.
   apply andb_true_iff in O as [O Hreg]. apply andb_true_iff in O as [O _].
   apply andb_true_iff in O as [O Hpos]. apply andb_true_iff in O as [Hnum Hlen]. apply Z.eqb_eq in Hlen.
@@ -471,27 +485,65 @@ Proof.
   rewrite !(comp_sl r _ _ _ b) by (first [eassumption|lia]). fold account.
   specialize (Hspec account (let p := position_range r k_national in get_slice b (fst p) (Some (snd p))) Hda Hla).
   cbn [al_validate german_algo] in Hspec. cbn [al_validate german_algo].
-  destruct (bb_accept code (digs account)) as [[|]|]; [| |exact I].
+  destruct (bb_accept code (digs account)) as [[|]|].
   - exact (national_result _ true Hspec).
   - exact (national_result _ false Hspec).
+  - exact (national_result_none _ Hspec).
 Qed.
 
 (* unlisted bank: accepted; listed with a method the library does not implement: accepted *)
-Theorem C07_unlisted : forall b,
+Theorem C07_unlisted : forall (idx_banks : text -> text -> list entry) b,
   bban_bank the_table idx_banks de b = Ok None -> validate_national the_table the_algos idx_banks de b = Ok true.
 Proof.
-  intros b Hb. apply national_unlisted; [exact Hb|].
+  intros idx_banks b Hb. apply national_unlisted; [exact Hb|].
   pose proof C07_de_obl as O. unfold de_row_ok in O. apply andb_true_iff in O as [O _]. apply andb_true_iff in O as [_ O].
   fold de in O. destruct (the_algos de k_default); [discriminate|reflexivity].
 Qed.
 
-Theorem C07_unimplemented : forall b en name,
+Theorem C07_unimplemented : forall (idx_banks : text -> text -> list entry) b en name,
   bban_bank the_table idx_banks de b = Ok (Some en) -> e_algo en = Some name -> the_algos de name = None ->
   validate_national the_table the_algos idx_banks de b = Ok true.
-Proof. intros b en name Hb He Hf. exact (national_unimplemented the_table the_algos idx_banks de b en name Hb He Hf). Qed.
+Proof. intros idx_banks b en name Hb He Hf. exact (national_unimplemented the_table the_algos idx_banks de b en name Hb He Hf). Qed.
 
+
+
+(* ---- at IBAN level (the property as stated): a German IBAN of a listed bank with an implemented method is accepted with
+        national validation exactly when it is ISO 13616-valid and the Bundesbank method accepts its account number
+        (for any bank index, in particular the bundled registry's) --------------------------------------------------------- *)
+Theorem C07_iban : forall (idx_banks : text -> text -> list entry) txt code en,
+  method_statement code ->
+  let national := validate_national the_table the_algos idx_banks in
+  let s := clean the_env txt in
+  iban_country_code s = de ->
+  bban_bank the_table idx_banks de (iban_bban the_env s) = Ok (Some en) -> e_algo en = Some (s2t code) ->
+  (iban_validate the_env the_iban_cfg the_table national true s = Ok true <->
+   iso_ok the_table s = true /\ bb_accept code (digs (sl 8 18 (iban_bban the_env s))) = Some true).
+Proof.
+  intros idx_banks txt code en Hm national s Hcc Hbank Halgo.
+  destruct steps_nat_obl as [Hl Hin].
+  rewrite (Proofs.TotalFacts.iban_accept_b the_env the_iban_cfg the_table national env_obl env_alpha_obl cfg_obl table_obl
+             s Hl Hin (clean_cleaned the_env env_obl txt)).
+  rewrite Hcc.
+  assert (Hshape : iso_ok the_table s = true -> exists r, find_row the_table de = Some r /\ conforms_row r (iban_bban the_env s) = true).
+  { intro Hi.
+    destruct (accepted_shape the_env the_iban_cfg the_table national (ic_components the_iban_cfg) (fun _ _ => None) (fun _ _ => [])
+                env_obl env_alpha_obl cfg_obl table_obl positions_obl _ Hi)
+      as (c1 & c2 & d1 & d2 & b & r & Es & Er & Hc & _ & Hcl & _).
+    assert (Ecc : de = [c1; c2]) by (rewrite <- Hcc, Es; apply cc_of). rewrite <- Ecc in Er.
+    assert (Eb : iban_bban the_env s = b).
+    { rewrite Es. unfold iban_bban. rewrite slice_bban. apply cleaned_fix. rewrite Es in Hcl. apply (cleaned_skipn the_env 4) in Hcl. exact Hcl. }
+    exists r. rewrite Eb. split; assumption. }
+  split; intros [Hi Hn]; (split; [exact Hi|]); destruct (Hshape Hi) as (r & Er & Hc);
+    destruct (C07_national idx_banks code r _ en Hm Er Hc Hbank Halgo) as (_ & _ & Hres); fold national in Hres.
+  - destruct Hn as [v Hv].
+    destruct (bb_accept code (digs (sl 8 18 (iban_bban the_env s)))) as [[|]|]; [reflexivity| |].
+    + rewrite Hres in Hv. discriminate.
+    + exfalso. apply Hres. rewrite Hv. f_equal. exact (returns_true _ _ _ _ _ _ Hv).
+  - rewrite Hn in Hres. exists true. exact Hres.
+Qed.
 
 Print Assumptions C07_national.
+Print Assumptions C07_iban.
 Print Assumptions C07_unlisted.
 
 (* ---- summary: 38 of the 39 implemented methods (the 39th, 76: C07_m76_partial / C07_m76_refuted) ------------------- *)
